@@ -10,7 +10,7 @@ from ..model import call_many
 from ..pool import guarded, run_cases
 
 THEOREMS = ["C02_defaults_alignment", "C02_function_roundtrip", "C02_default_stays_on_its_parameter", "C02_class_roundtrip",
-            "C02_alignment_example", "C02_class_text_roundtrip", "C02_class_docstring_canonical", "C02_class_text_example", "C02_function_text_parse_canonical", "C02_function_text_example"]
+            "C02_alignment_example", "C02_class_text_roundtrip", "C02_class_docstring_canonical", "C02_class_text_example", "C02_function_text_parse_canonical", "C02_function_text_example", "C02_function_text_roundtrip"]
 FORMATS = [("class", {}), ("pydantic", {}), ("function", {"type_annotations": True, "kwonly": True}),
            ("function", {"type_annotations": True, "kwonly": False}), ("function", {"type_annotations": False, "kwonly": True}),
            ("function", {"type_annotations": False, "kwonly": False}), ("argparse", {})]
